@@ -46,6 +46,26 @@ class P:
                   "[neg a , b hi c , c bang]", "{a hi b : c bang}", "a bang ? b bang : c bang", "[a bang zz , [b zz]]", "f(neg a bang)",
                   "g(a hi b bang , {x : y zz})", "a = b bang ; a", "[a bang]", "f()", "{a zz : a zz}", "neg neg a bang zz ; b"]
         cases += flow.mk_cases("wordops", [regs + "RT:" + hx(p) for p in wprogs])
+        # the printer must use the operator table in force NOW: an operator is registered, trees are rendered, the same operator
+        # is registered again with another precedence / associativity, trees parsed under the new table are rendered
+        # (all on one thread): every rendering must read back as its tree
+        base = {n_: (p_, r_) for n_, p_, s_, r_ in infix}
+        for _ in range(60 if tier == "quick" else 3000):
+            PT2 = dict(base)
+            words = rng.sample(["hi", "lo", "zed"], rng.randint(1, 2))
+            ops_ = []
+            def tree(d):
+                if d <= 0 or rng.random() < 0.3: return ("ref", rng.choice(["a", "b", "c"]))
+                return ("bin", rng.choice(words * 3 + ["+", "*", "==", "&&"]), tree(d - 1), tree(d - 1))
+            for _phase in range(rng.choice([2, 3])):
+                for w in words:
+                    pr = rng.choice([21, 39, 41, 59, 61, 99, 109, 111, 119, 121, 199, 201])
+                    right = rng.random() < 0.4
+                    PT2[w] = (pr, right)
+                    ops_.append("REGI:%s:%x:0:%d:0" % (hx(w), pr, 1 if right else 0))
+                for _k in range(3):
+                    ops_.append("RT:" + hx(progs.render_full(tree(rng.choice([2, 3])))))
+            cases += flow.mk_cases("rereg", [" ".join(ops_)], start=len([c for c in cases if c.gen == "rereg"]))
         n = 3000 if tier == "quick" else 300000
         rnd = []
         for _ in range(n):
@@ -84,7 +104,14 @@ class P:
         return None
 
     def oracle(self, case, impl):
-        p = impl.split(" ")[-1].split(":")
+        outs = [o for o, op in zip(impl.split(" "), case.line.split(" ")[1:]) if op.startswith("RT:")]
+        for o in outs[:-1]:
+            v, d = self.oracle1(o)
+            if v != "ok": return v, d
+        return self.oracle1(impl.split(" ")[-1])
+
+    def oracle1(self, out):
+        p = out.split(":")
         if p[0] == "ERR": return "ok", ""
         if p[0] != "OK": return "violates", "parse/expr did not return: " + p[0]
         ast1, x = p[1], p[2]
